@@ -30,6 +30,23 @@ CHECKS = {
             "closed-form catalogue written from the docstrings; held means no observed instance deviated by more than 1e-8.",
             "Trusts the hand-written catalogue (vf/refmodel/gates.py) as the specification and numpy; covers the parameter values "
             "actually drawn, not all reals.", "DESIGN.md 5/C03"),
+    "C04": ("exploration", "runtime monitor over every protocol entry point of one value + catalogue-derived expected matrix",
+            "For each generated value (catalogue gate x parameters x 0-2 wrappers: tags, qubit permutation, qudit/product-of-sums/"
+            "sum-of-products controls, inverse, ParallelGate, CircuitOperation, transform_qubits) the check observes cirq.unitary, "
+            "apply_unitary on caller-built tensors (non-adjacent/permuted axes, C/F/strided layouts, c64/c128, NaN-filled "
+            "buffers, matrix-shaped targets), decompose_once/decompose products, kraus/mixture/superoperator, apply_channel with "
+            "separate left/right axes, act_on for state-vector and density-matrix states, and the has_*/is_measurement answers; "
+            "each is compared with the one expected matrix (or Kraus set) the reference model derives from the catalogue.",
+            "Trusts the catalogue and numpy; decompositions of MatrixGate-like values compared up to global phase, others exactly; "
+            "stabilizer states are covered under C13.", "DESIGN.md 5/C04"),
+    "C17": ("exploration", "runtime monitor at the vendor serializers/result classes + independent vendor-side payload interpreters",
+            "IonQ JSON programs (QIS and native, single and batch) and AQT operation lists produced by the real serializers are "
+            "re-interpreted by readers written from the vendors' gate definitions and compared (up to global phase) with the "
+            "catalogue product of the submitted abstract program; measurement metadata is decoded back to key->targets; "
+            "unsupported content must raise; IonQ QPU/simulator results, the Job/Service chain over a fake HTTP layer, the AQT local "
+            "simulator and the Pasqal request body/result decoding are checked against plain-Python bit bookkeeping.",
+            "Vendor gate semantics as quoted in vf/refmodel/ionq_reader.py / aqt_reader.py (pauliexp string order inferred from the "
+            "serializer's comment and literal test expectations); fake endpoints model the services.", "DESIGN.md 5/C17"),
 }
 
 PENDING_REASON = "check not built yet in this round; design in DESIGN.md section 5 (runtime monitor + reference oracle)"
